@@ -63,7 +63,7 @@ def clause_of(obname):
     return obname.split("#", 1)[0]
 
 
-def discharge_all(units, timeout_s, jobs, thorough):
+def discharge_all(units, timeout_s, jobs, thorough, retry=frozenset()):
     tasks = []
     for u in units:
         for ob in u.get("obligations", []):
@@ -80,7 +80,7 @@ def discharge_all(units, timeout_s, jobs, thorough):
         r = None
         if qframe:
             # stage 0: "the same statement again in a later state" (shape-matched hypotheses only)
-            r = solve.solve_multi([("frame", qframe, False)], 3.0)
+            r = solve.solve_multi([("frame", qframe, False)], min(timeout_s, 10.0))
         if r is None or r["status"] != "unsat":
             first = [("rel", qrel, False)] + ([("same", qsame, False)] if qsame else [])
             r0 = r
@@ -99,7 +99,10 @@ def discharge_all(units, timeout_s, jobs, thorough):
                 r = r2
             else:
                 r["tried"] = r2["tried"]
-        if r["status"] not in ("unsat", "sat") and thorough:
+        # last attempt with all back ends and a triple budget: in the thorough tier always; in the quick tier for
+        # clauses that were proved on the reference tree (a lost proof is reported as a violation, so a verdict
+        # that merely ran out of time once must not count)
+        if r["status"] not in ("unsat", "sat") and (thorough or clause_of(ob["name"]) in retry):
             r3 = solve.solve_multi([("full3", ob["query"], True)], timeout_s * 3, backends=list(solve.BACKENDS.items()))
             r3["tried"] = {**r.get("tried", {}), **r3.get("tried", {})}
             r = r3
@@ -180,7 +183,9 @@ def main(argv=None):
         with ctx.Pool(min(a.jobs, len(jobs)), initializer=_init) as pool:
             units = pool.map(sx_unit, jobs, chunksize=1)
     timeout_s = P.get("timeout", 10.0) * (3 if tier == "thorough" else 1)
-    solver_wall = discharge_all(units, timeout_s, max(4, a.jobs // 2), tier == "thorough")
+    _bp = os.path.join(VERIF, "baseline", prop + ".json")
+    _retry = frozenset(json.load(open(_bp))["clauses"]) if os.path.exists(_bp) else frozenset()
+    solver_wall = discharge_all(units, timeout_s, max(4, a.jobs // 2), tier == "thorough", retry=_retry)
 
     # ------------------------------------------------------------------ verdicts
     engine_errors = [u for u in units if u.get("error")]
